@@ -215,8 +215,8 @@ pub struct WorldSpec {
     pub quotes: Vec<String>,
 }
 
-const RATES: [&str; 14] = [
-    "0.01", "0", "0.001", "0.025", "0.05", "0.125", "0.3333", "0.5", "1", "0.0001", "0.15", "1.5", "0.005", "0.333",
+const RATES: [&str; 18] = [
+    "0.01", "0", "0.001", "0.025", "0.05", "0.125", "0.3333", "0.5", "1", "0.0001", "0.15", "1.5", "0.005", "0.333", "0.0100", "1.0", "00.02", ".05",
 ];
 
 fn rate_from(w: u32, w2: u32, tie_seeking: bool) -> String {
@@ -318,6 +318,26 @@ pub fn build_world(w: &[u32; WORLD_WORDS], p: &Profile) -> WorldSpec {
         }
         v
     };
+    // lists may legally name an entry twice
+    let (mut executors, mut approvers) = (executors, approvers);
+    if gate(w[11].rotate_left(17), 60) {
+        let d = executors[0].clone();
+        executors.push(d);
+    }
+    if gate(w[13].rotate_left(17), 60) {
+        if let Some(d) = approvers.first().cloned() {
+            approvers.push(d);
+        }
+    }
+    if gate(w[3].rotate_left(17), 40) {
+        let d = quotes[0].clone();
+        quotes.push(d);
+    }
+    if gate(w[2].rotate_left(17), 40) {
+        if let Some(d) = convertibles.first().cloned() {
+            convertibles.push(d);
+        }
+    }
     let mut msg = serde_json::Map::new();
     msg.insert("name".into(), json!("ats-market"));
     msg.insert("base_denom".into(), json!(base));
